@@ -675,3 +675,17 @@ CHECKS["C15"]["text"] += (
     " After a file has been loaded, filters registered later (without "
     "requested identifier, and by loading the file again) must take other "
     "identifiers: every identifier keeps resolving to its own filter.")
+CHECKS["C14"]["text"] += (
+    " Every second graph gives its file locations relative to the referring "
+    "file (the working directory is elsewhere) or as a dangling absolute "
+    "location followed by a relative one.")
+CHECKS["C13"]["text"] += (
+    " Channel and laser counts of zero (although channels / lasers exist) "
+    "are corruptions of their own.")
+CHECKS["C11"]["text"] += (
+    " User entries include sequences with a single element, which stay "
+    "sequences.")
+CHECKS["C12"]["text"] += (
+    " The mask returned with downsampled scatter data marks nothing "
+    "excluded and equals, on the selected events, the mask of the "
+    "selected-only dataset.")
